@@ -54,6 +54,8 @@ func main() {
 		}},
 		// an include whose Go package name equals the including file's, with constants of the same names
 		{"samepkg", true, func() (*idl.File, *idl.File, []*universe.Way) { return universe.SamePkgFamily("c06s") }},
+		// constants whose Go names coincide after conversion
+		{"collide", true, func() (*idl.File, *idl.File, []*universe.Way) { return universe.CollideFamily("c06c") }},
 	}
 	// 1. probe each way alone (no compilation): which ones does thriftgo accept?
 	pb, err := gen.NewBatch(ses.Scratch+"/probe", ses.Batch.Thriftgo)
